@@ -1,10 +1,14 @@
 import Driver.Par
+import Driver.Collider
+import Driver.EarClip
 /-! `mvdriver`: reads one request per line on stdin, prints one answer per line.
 First token = engine. -/
 
 def dispatch (line : String) : String :=
   match line.trimAscii.toString.splitOn " " |>.filter (· ≠ "") with
   | "par" :: rest => ParDrv.handle rest
+  | "collider" :: rest => Collider.handle rest
+  | "earclip" :: rest => EarClip.handle rest
   | _ => "bad-engine"
 
 partial def loop (h : IO.FS.Stream) (out : IO.FS.Stream) : IO Unit := do
